@@ -51,9 +51,13 @@ def gen_small(rng):
     return d
 
 
-def text_of(desc, fmt, key_style, graph_id=None, drop_id_of=None, drop_field='NodeID'):
+def text_of(desc, fmt, key_style, graph_id=None, drop_id_of=None, drop_field='NodeID', stray=None):
     import networkx as nx
     g = rawgraph.to_nx(desc, key_style=key_style, graph_id=graph_id)
+    if stray is not None:
+        # an ill-formed model text: one node (not the first) says it belongs to another graph
+        ks = list(g.nodes)
+        g.nodes[ks[1 + stray[0] % (len(ks) - 1)]]['GraphID'] = stray[1]
     if drop_id_of is not None:
         # an ill-formed model text: the k-th node has no NodeID (the importers must refuse it) / no Class (they may not notice)
         k = list(g.nodes)[drop_id_of % len(g.nodes)]
@@ -96,6 +100,11 @@ def gen_op(rng, gids, live):
     if k < 72:
         return {'op': 'import_illformed', 'g': g, 'desc': gen_small(rng), 'fmt': rng.choice(['graphml', 'json']), 'keys': rng.randrange(3),
                 'drop': rng.randrange(5), 'direct': False, 'field': rng.choice(['NodeID', 'NodeID', 'Class'])}
+    if k < 73:
+        d = gen_small(rng)
+        if len(d['nodes']) >= 2:
+            return {'op': 'import_direct_stray', 'g': g, 'desc': d, 'fmt': rng.choice(['graphml', 'json']), 'keys': rng.randrange(3),
+                    'stray': [rng.randrange(5), rng.choice([x for x in gids if x != g] or ['elsewhere'])]}
     if k < 78:
         return {'op': 'import_direct', 'g': g, 'desc': gen_small(rng), 'fmt': rng.choice(['graphml', 'json']), 'keys': rng.randrange(3)}
     if k < 84:
@@ -154,6 +163,8 @@ def apply(imp, cls, op):
                                                                             drop_id_of=op['drop']))
         return imp.import_graph_from_string(graph_string=text_of(op['desc'], op['fmt'], op['keys'], drop_id_of=op['drop'],
                                                                  drop_field=op.get('field', 'NodeID')), graph_id=op['g'])
+    if o == 'import_direct_stray':
+        return imp.import_graph_from_string_direct(graph_string=text_of(op['desc'], op['fmt'], op['keys'], graph_id=op['g'], stray=op['stray']))
     if o == 'delete_graph':
         return g.delete_graph() if op['via'] == 'graph' else imp.delete_graph(graph_id=op['g'])
     if o == 'delete_then_reimport':
@@ -201,6 +212,15 @@ def run_history(ctx, store, imp, cls, hist):
             ctx.count('frame-checks:2+graphs')
             nontriv = True
         w['exception'] = exc
+        if op['op'] == 'import_direct_stray':
+            # a text whose nodes do not agree on the graph they belong to is refused by the direct importers, whole
+            ctx.count('import-direct-stray:refused' if exc else 'import-direct-stray:accepted')
+            if not canon.typed_equal(before, after):
+                ctx.violation('C04/import_direct_stray-changes-the-store' if exc else 'C04/import_direct_stray-accepted',
+                              'an import addressed to one graph leaves every other graph unchanged: a text in which one node claims to belong '
+                              'to another graph is refused and nothing of it is stored',
+                              dict(w, changed=sorted(k for k in set(before) | set(after) if not canon.typed_equal(before.get(k), after.get(k)))))
+                return False
         if op['op'] == 'import_illformed':
             ctx.count('import-illformed:refused' if exc else 'import-illformed:accepted')
             if exc is not None and not canon.typed_equal(before.get(op['g']), after.get(op['g'])):
